@@ -75,6 +75,13 @@ def source(h: Sequence[Tuple[int, ...]], members: str = '', generic: bool = Fals
                     if 'd' in members:
                         for j in P:
                             body.append(f'    def d_{tag}_{j}(self):' + (f'\n        "doc d_{tag}_{j} from C{i}"' if j == i else '\n        pass'))
+                    if 'e' in members and len(P) >= 2:
+                        # family e: documented in class j, EMPTY docstring in class k, undocumented elsewhere (an empty docstring is a docstring)
+                        for j in P:
+                            for k in P:
+                                if k != j:
+                                    doc = f'\n        "doc e_{tag}_{j}_{k} from C{i}"' if i == j else ('\n        ""' if i == k else '\n        pass')
+                                    body.append(f'    def e_{tag}_{j}_{k}(self):{doc}')
         L += body or ['    pass']
     return '\n'.join(L) + '\n'
 
@@ -146,7 +153,7 @@ def check_system(s: Any, modname_of: Any, chunk: Sequence[Any], members: str, re
                 continue
             names = set()
             for k in py[ci].__mro__[:-1]:
-                names |= {n for n in vars(k) if n.startswith(('m_', 'd_'))}
+                names |= {n for n in vars(k) if n.startswith(('m_', 'd_', 'e_'))}
             inherited: Dict[str, str] = {}
             twice = False
             for via, attrs in util.class_members(cls):
@@ -164,8 +171,11 @@ def check_system(s: Any, modname_of: Any, chunk: Sequence[Any], members: str, re
                     continue
                 expdoc = inspect.getdoc(getattr(py[ci], n))
                 gotdoc = epydoc2stan.get_docstring(f)[0] if hasattr(epydoc2stan, 'get_docstring') else model.get_docstring(f)[0]
-                if gotdoc != expdoc:
-                    res['violations'].append(core.violation(f'{variant}/inherited-doc', f'C{ci}.{n} of {h}: docstring {gotdoc!r}, inspect.getdoc gives {expdoc!r}', case))
+                if (gotdoc or None) != (expdoc or None):       # an empty docstring is shown as "undocumented" by design, but it ends the search like in CPython
+                    # the walk over the definitions along the MRO (first definition that has a docstring, empty or not)
+                    walk = next((vars(k)[n].__doc__ for k in py[ci].__mro__ if n in vars(k) and vars(k)[n].__doc__ is not None), None)
+                    quirk = '/definition-walk-differs-from-getattr-on-bases' if (gotdoc or None) == (walk or None) else ''
+                    res['violations'].append(core.violation(f'{variant}/inherited-doc{quirk}', f'C{ci}.{n} of {h}: docstring {gotdoc!r}, inspect.getdoc gives {expdoc!r}', case))
                 if inherited.get(n) != definer:
                     res['violations'].append(core.violation(f'{variant}/member-table', f'C{ci}.{n} of {h}: listed as inherited from {inherited.get(n)}, defined in {definer}', case))
             for n in [x for x in vars(py[ci]) if x.startswith('m_')]:
@@ -219,7 +229,9 @@ def placed_sources(h: Sequence[Tuple[int, ...]], assign: Sequence[int], style: s
         for i in mine:
             bl = []
             for b in h[i]:
-                if assign[b] != m and style.startswith('attr'):
+                if assign[b] != m and style.startswith('attrsub'):
+                    bl.append(f'{MODNAMES[assign[b]]}.C{b}[int]')      # a subscripted (generic) base written as a dotted name
+                elif assign[b] != m and style.startswith('attr'):
                     bl.append(f'{MODNAMES[assign[b]]}.C{b}')
                 else:
                     bl.append(f'C{b}')
@@ -355,14 +367,16 @@ def jobs(tier: str) -> Iterable[Tuple[str, Any]]:
         yield ('full-path:classes<=5', ('full', 5, start, 200, '', False))
     # (2) member families on <= 4 classes
     for n in (1, 2, 3):
-        yield (f'members:classes<={n}', ('full', n, 0, 10 ** 9, 'md', False))
+        yield (f'members:classes<={n}', ('full', n, 0, 10 ** 9, 'mde', False))
     for start in range(0, 160, 10):
         yield ('members:classes<=4', ('full', 4, start, 10, 'md', False))
+    for start in range(0, 160, 10):
+        yield ('members-empty-doc:classes<=4', ('full', 4, start, 10, 'e', False))
     # (3) generic-subscripted bases
     for start in range(0, 160, 40):
         yield ('generic:classes<=4', ('full', 4, start, 40, '', True))
     # (4) placements
-    for style in ('from', 'attr', 'star', 'from+cycle', 'attr+cycle'):
+    for style in ('from', 'attr', 'attrsub', 'star', 'from+cycle', 'attr+cycle'):
         yield ('placed:classes<=3x2mods', ('placed', 3, 2, style))
         yield ('placed:classes<=4x2mods', ('placed', 4, 2, style))
     for style in ('from+chain', 'attr+chain'):
